@@ -96,6 +96,9 @@ type C02Case struct {
 	Config string    `json:"config"` // direct | upstream | mitm
 	// RateLimited: the listener has (very high) bandwidth limits, so every byte passes through the limiting wrapper
 	RateLimited bool `json:"rate_limited,omitempty"`
+	// Rules: the instance has --response-header rules of the adding kind (c02Rules): each appends its value to whatever
+	// the origin sent under that name
+	Rules bool `json:"rules,omitempty"`
 	Exch   []C02Exch `json:"exch"`
 }
 
@@ -106,6 +109,8 @@ var (
 	c02RVals   = []string{"1", "a=b; Path=/; HttpOnly", "no-cache, max-age=0", "W/\"abc\"", "Accept-Encoding", "a b", "http://x.test/y?z", "en, de"}
 	c02Lens    = []int{0, 1, 5, 100, 4095, 4096, 4097, 32767, 32768, 32769, 50000}
 )
+
+var c02Rules = []string{"Set-Cookie: via=fwd", "Vary: Origin", "X-Added-By: fwd"}
 
 func genC02(t *rapid.T) C02Case {
 	c := C02Case{Config: rapid.SampledFrom([]string{"direct", "direct", "upstream", "mitm"}).Draw(t, "config")}
@@ -207,6 +212,7 @@ func genC02(t *rapid.T) C02Case {
 		c.Exch = append(c.Exch, x)
 	}
 	c.RateLimited = rapid.IntRange(0, 3).Draw(t, "ratelimited") == 0
+	c.Rules = !c.RateLimited && rapid.IntRange(0, 3).Draw(t, "rules") == 0
 	return c
 }
 
@@ -416,6 +422,8 @@ func runC02once(e *c01Env, c C02Case) (fails []vstat.Failure) {
 	px := e.proxies[c.Config]
 	if c.RateLimited {
 		px = e.proxies[c.Config+"-rl"]
+	} else if c.Rules {
+		px = e.proxies[c.Config+"-rules"]
 	}
 	key := func(clause string) string { return "C02:" + c.Config + ":" + clause }
 	host := map[string]string{"direct": e.origin.Addr, "upstream": "origin.test:8080", "mitm": e.torigin.Addr}[c.Config]
@@ -692,6 +700,20 @@ func compareC02(c C02Case, i int, x C02Exch, built builtResp, m *Msg, vid string
 		}
 		have[ln] = append(have[ln], f.Value)
 	}
+	if c.Rules && !c.RateLimited {
+		for _, rule := range c02Rules {
+			name, val, _ := strings.Cut(rule, ": ")
+			ln := strings.ToLower(name)
+			if nominated[ln] {
+				// the origin declared the field hop-by-hop: whether the rule's value joins nothing or is dropped with it
+				// is not stated
+				delete(want, ln)
+				delete(have, ln)
+				continue
+			}
+			want[ln] = append(want[ln], val)
+		}
+	}
 	for ln, wv := range want {
 		if fmt.Sprint(have[ln]) != fmt.Sprint(wv) || len(have[ln]) != len(wv) {
 			fails = append(fails, vstat.Failf(key("field-values"), "exchange %d: field %q: origin sent %q, client got %q", i, ln, wv, have[ln]))
@@ -769,6 +791,9 @@ func classifyC02(c C02Case) (bool, string, []string) {
 	cls := []string{"config-" + c.Config, fmt.Sprintf("exch=%d", len(c.Exch))}
 	if c.RateLimited {
 		cls = append(cls, "listener-with-bandwidth-limits")
+	}
+	if c.Rules && !c.RateLimited {
+		cls = append(cls, "response-header-rules")
 	}
 	nt := false
 	earlier := false
